@@ -38,7 +38,8 @@ structure Cfg (Prefix : Type) where
 /-- what the connection itself says about the request -/
 structure Conn where
   remoteAddr : Bytes                     -- r.RemoteAddr
-  tls : Bool                             -- r.TLS != nil
+  tls : Bool                             -- r.TLS != nil once Server.ServeHTTP ran (it recovers the state from the
+                                         --   connection in the context when a listener wrapper left r.TLS nil)
   host : Bytes                           -- r.Host
 deriving DecidableEq, Repr
 
